@@ -345,7 +345,30 @@ pub fn c09_case(seed: u64, case: u64) -> CaseResult {
             }
             for plan in plans {
                 res.count("c09_fault_runs", 1);
-                let f = run_script(seed, case, Some((ri, plan.clone())), false);
+                // a failed block write leaves an orphan pack and, after the retry, a pack-less block: for those
+                // runs every later write boundary (on every replica, melds included) is a crash point too
+                let snap_too = plan.len() == 1 && w.3.contains("commit") && w.2.ends_with(".delta");
+                let f = run_script(seed, case, Some((ri, plan.clone())), snap_too);
+                if snap_too {
+                    for (rj, idx, key, snap) in &f.snaps {
+                        res.count("c09_crash_points_after_fault", 1);
+                        match open_with(&store::mem_with(snap), caps) {
+                            Outcome::Ok(m) => {
+                                let o = observe(&m);
+                                let before = res.violations.len();
+                                check_closure(&mut res, "C09", "crash-after-retried-commit", &o, snap);
+                                if res.violations.len() > before {
+                                    let last = res.violations.len() - 1;
+                                    res.violations[last].detail = format!("fault r{}@{:?} ({}), then crash on r{} before write {} ({}): {}", ri, plan, w.3, rj, idx, key, res.violations[last].detail);
+                                }
+                                if !o.doc_ok && !o.objects.is_empty() && o.objects.contains_key(crate::gen::ROOT) && !o.doc.contains("no_root") {
+                                    res.viol("C09", "crash-state-unreadable", format!("fault r{}@{:?}, crash on r{} before write {}: {}", ri, plan, rj, idx, o.doc));
+                                }
+                            }
+                            o => res.viol("C09", "reopen-at-crash-point-failed", format!("fault r{}@{:?}, crash on r{} before write {} ({}): {}", ri, plan, rj, idx, key, o.describe())),
+                        }
+                    }
+                }
                 for (p, s, d) in &f.viol {
                     res.viol(p, s, format!("fault r{}@{:?} (baseline write: {} during {}): {}", ri, plan, w.2, w.3, d));
                 }
